@@ -90,6 +90,14 @@ fn cite_program(rng: &mut Rng) -> CiteCase {
     ));
     items.push(Item::Proc("pdiv".into(), vec![Item::Ins(Ins::Mov(Loc::R8(R8::BL), Src::Imm(0))), Item::Ins(Ins::Un(Un::Div, Loc::R8(R8::BL)))]));
     items.push(Item::Label("start".into()));
+    // now and then more than 65536 instructions in front of everything that produces a message
+    if rng.chance(1, 16) {
+        items.push(Item::Ins(Ins::J(Jcc::Jmp, "Kfar".into())));
+        for _ in 0..65_600 {
+            items.push(Item::Ins(Ins::Simple("cld")));
+        }
+        items.push(Item::Label("Kfar".into()));
+    }
     let n = 2 + rng.below(9);
     for _ in 0..n {
         match rng.below(14) {
@@ -185,10 +193,14 @@ fn check_map(rep: &Report, p: &Program, rng: &mut Rng, core: Option<String>, kin
     }
     rep.count("instructions whose source-map entry was compared", a.code.len() as u64);
     let flat = p.flatten();
+    let mflags = macro_flags(p);
+    // newline offsets of the stripped text: line of an offset by binary search
+    let nls: Vec<usize> = stripped.bytes().enumerate().filter(|(_, b)| *b == b'\n').map(|(i, _)| i).collect();
+    let line_of = |_t: &str, off: usize| 1 + nls.partition_point(|n| *n < off.min(stripped.len()));
     for (i, ip) in r.pos.iter().enumerate() {
         let what = if flat.code.get(i).map(|f| f.implied_ret).unwrap_or(false) {
             "implied-ret"
-        } else if is_macro_generated(p, i) {
+        } else if mflags.get(i).copied().unwrap_or(false) {
             "macro-generated"
         } else {
             "instruction"
@@ -220,6 +232,31 @@ fn check_map(rep: &Report, p: &Program, rng: &mut Rng, core: Option<String>, kin
     }
 }
 
+/// for every emitted instruction: does it come out of a macro use (one walk over the program)
+fn macro_flags(p: &Program) -> Vec<bool> {
+    fn walk(items: &[Item], out: &mut Vec<bool>) {
+        for it in items {
+            match it {
+                Item::Ins(_) => out.push(false),
+                Item::Proc(_, b) => {
+                    walk(b, out);
+                    out.push(false);
+                }
+                Item::MacroUse(_, _, e) => {
+                    for _ in 0..e.len() {
+                        out.push(true);
+                    }
+                }
+                _ => {}
+            }
+        }
+    }
+    let mut v = Vec::new();
+    walk(&p.items, &mut v);
+    v
+}
+
+#[allow(dead_code)]
 fn is_macro_generated(p: &Program, flat_idx: usize) -> bool {
     fn walk(items: &[Item], n: &mut usize, target: usize, hit: &mut bool) {
         for it in items {
